@@ -5,7 +5,7 @@ import checklib
 
 def regen(ctx):
     return checklib.regen_skeletons(ctx, ["kvstore/sequence.go:Sequence.Next", "kvstore/sequence.go:Sequence.Release",
-                                          "kvstore/sequence.go:Sequence.update"], extra_methods=["Set", "Get"])
+                                          "kvstore/sequence.go:Sequence.update", "kvstore/sequence.go:type=Sequence"], extra_methods=["Set", "Get"])
 
 
 SPEC = {
@@ -15,7 +15,7 @@ SPEC = {
     "driver": "drv_c07",
     "harness": "c07",
     "theorems": ["C07_strictly_increasing", "C07_release_wastes_none", "C07_crash_wastes_le_interval",
-                 "C07_next_returns_frontier", "C07_budget_step", "C07_store_error_harmless", "C07_skeleton_next", "C07_skeleton_release", "C07_skeleton_update",
+                 "C07_next_returns_frontier", "C07_budget_step", "C07_store_error_harmless", "C07_skeleton_next", "C07_skeleton_release", "C07_skeleton_update", "C07_skeleton_type_sequence",
                  # protocol level: concurrent callers on one object (Hive/Props/C07b.lean, model Hive/Model/SeqConc.lean)
                  "C07_concurrent_mutual_exclusion", "C07_concurrent_refines_sequential", "C07_concurrent_answers_are_sequential", "C07_concurrent_strictly_increasing",
                  "C07_concurrent_no_number_twice", "C07_concurrent_crash_wastes_le_interval", "C07_concurrent_crash_step",
